@@ -210,6 +210,15 @@ pub struct Scenario {
     /// which properties' oracles apply to this scenario (lanes built for one property may
     /// deliberately leave the envelope of another)
     pub check: Vec<String>,
+    /// "duo" run: a second scrut process (its own scenario) runs AT THE SAME TIME on the same
+    /// temporary root (and --work-directory); the two take turns at announced points
+    #[serde(default, skip_serializing_if = "Option::is_none")]
+    pub partner: Option<Box<Scenario>>,
+    /// the interleaving of a duo run: which process (0 = this, 1 = the partner) is let go at each
+    /// decision; None = drawn from `sim.seed`. Past its end, or when the named process cannot
+    /// run, the first one that can is taken.
+    #[serde(default, skip_serializing_if = "Option::is_none")]
+    pub turns: Option<Vec<u8>>,
 }
 
 impl Scenario {
